@@ -334,6 +334,12 @@ fn json_grammar(t: &St) -> Vec<Value> {
             let mut m2 = serde_json::Map::new();
             m2.insert(k.clone(), json!([a]));
             out.push(Value::Object(m2));
+            // {k: [a, b]}: the payload of a tuple variant / a tuple-typed field with one element of the wrong type
+            for b in [Value::Null, json!(true), json!(1), json!(-1), json!(300), json!("a"), json!([]), json!({})] {
+                let mut m5 = serde_json::Map::new();
+                m5.insert(k.clone(), json!([a, b]));
+                out.push(Value::Object(m5));
+            }
             for k2 in &names {
                 if k2 != k {
                     let mut m3 = m.clone();
